@@ -80,3 +80,24 @@ PROPS["C03"] = {
         "the UDP socket read loop (receiver.go) is exercised end to end only by C20; here datagrams are injected at the parser's input channel",
     ],
 }
+
+PROPS["C08"] = {
+    "pkg": "c08", "level": "exploration",
+    "jobs": {
+        "quick": [
+            {"name": "stats", "run": "^TestTimerStatistics$", "checks": 16000, "shards": 8},
+            {"name": "hist", "run": "^TestHistograms$", "checks": 8000, "shards": 4},
+        ],
+        "thorough": [
+            {"name": "stats", "run": "^TestTimerStatistics$", "checks": 1600000, "shards": 12, "timeout": 1700},
+            {"name": "hist", "run": "^TestHistograms$", "checks": 800000, "shards": 4, "timeout": 1700},
+        ],
+    },
+    "assumptions": [
+        "floating-point tolerance |got-want| <= 1e-9 * (sum of |v| resp. sum of v^2) + 1e-300 for sums, means and percentile sums (the code forms upper-tail sums by subtraction); min, max, median and boundaries exact",
+        "k = round(|p|*n/100) evaluated in integers; at exact .5 ties (|p|*n mod 100 == 50) both neighbours are accepted (the code rounds a floating-point product)",
+        "count = round(sum 1/rate): when the sum is within 1e-9 of a .5 tie either neighbour is accepted (floating-point addition order)",
+        "which buckets survive a limit below the number of listed buckets is not stated by the property: only 'at most limit finite buckets, all from the tag, +Inf present, counts right' is required there",
+        "percentile 0 and NaN bucket items are outside the domain",
+    ],
+}
